@@ -761,6 +761,143 @@ static void check_bins(Run& run, const Geo& g)
                + " wrapped, " + std::to_string(n_miss_edge) + " axial-edge misses), " + std::to_string(n_ge2) + " bins with >=2 detector pairs");
 }
 
+// ------------------------------------------------------------------------------------------------ clause derived_as_fresh
+static std::array<int, 5> dp_key(const DPP& e)
+{
+  return { e.pos1().tangential_coord(), e.pos1().axial_coord(), e.pos2().tangential_coord(), e.pos2().axial_coord(), e.timing_pos() };
+}
+
+// g.pdi is a derived object, g.fresh the freshly constructed object of the same configuration.  If they compare equal they must behave alike.
+static void check_derived(Run& run, const Geo& g)
+{
+  vmc::Ctx& ctx = run.ctx;
+  const ProjDataInfo &p = *g.pdi, &q = *g.fresh;
+  ctx.count("derived_configs");
+  ctx.count(std::string("derived_configs_") + run.d.name());
+  if (run.d.bvm > run.c.vm) ctx.count("derived_configs_views_unmashed");
+  if (run.d.bvm < run.c.vm) ctx.count("derived_configs_views_mashed");
+  if (!run.d.warm) ctx.count("derived_configs_base_not_used_before");
+  if (!(p == q) || !(q == p))
+    {
+      // the property says nothing about which derivations reproduce a constructed sampling: recorded, the other clauses were checked on the object
+      ctx.count("derived_not_equal_to_fresh");
+      ctx.observe("derived object does not compare equal to the freshly constructed one: " + run.cs);
+      return;
+    }
+  ctx.count("derived_equal_to_fresh");
+  const ProjDataInfoCylindricalNoArcCorr* qna = dynamic_cast<const ProjDataInfoCylindricalNoArcCorr*>(&q);
+  const ProjDataInfoGenericNoArcCorr* qge = dynamic_cast<const ProjDataInfoGenericNoArcCorr*>(&q);
+  if ((g.na != nullptr) != (qna != nullptr) || (g.ge != nullptr) != (qge != nullptr)) { run.viol("derived_as_fresh", "class", "derived and fresh object are of different classes"); return; }
+  const int smin = p.get_min_segment_num(), smax = p.get_max_segment_num();
+  const int tmin = p.get_min_tangential_pos_num(), tmax = p.get_max_tangential_pos_num();
+  const int kmin = p.get_min_tof_pos_num(), kmax = p.get_max_tof_pos_num();
+  const bool restricted = run.c.geom == "pre" && (double)p.size_all() > 5e5;
+  const std::vector<int> segs = restricted ? uniq_in({ smin, -1, 0, 1, smax }, smin, smax) : range(smin, smax);
+  const double tol_len = g.tol_len(), tol_phi = g.tol_phi();
+  const double w_arc = g.ac ? (double)g.ac->get_tangential_sampling() : 0;
+  long long n_cmp = 0, n_lists = 0, n_pairs = 0, n_pairs_binned = 0, n_refused = 0;
+  std::vector<DPP> dp, dq;
+  std::vector<std::array<int, 5>> kp, kq;
+  // ---------------- every bin: coordinates and detector pairs
+  for (int seg : segs)
+    {
+      const int amin = p.get_min_axial_pos_num(seg), amax = p.get_max_axial_pos_num(seg);
+      const std::vector<int> axs = restricted ? uniq_in({ amin, amin + 1, (amin + amax) / 2, amax }, amin, amax) : range(amin, amax);
+      for (int ax : axs)
+        for (int v = 0; v < g.V; ++v)
+          for (int t = tmin; t <= tmax; ++t)
+            {
+              if (run.too_many()) return;
+              const Bin b(seg, v, ax, t, 0, 1.F);
+              if (g.ac && std::fabs(t * w_arc) >= 0.999 * g.reff) continue; // as in check_bins: assert()-only precondition of get_tantheta
+              double cp[4] = { 0, 0, 0, 0 }, cq[4] = { 0, 0, 0, 0 };
+              std::string wp, wq;
+              const bool tp = small::throws([&] { cp[0] = p.get_s(b); cp[1] = p.get_m(b); cp[2] = p.get_tantheta(b); cp[3] = p.get_phi(b); }, &wp);
+              const bool tq = small::throws([&] { cq[0] = q.get_s(b); cq[1] = q.get_m(b); cq[2] = q.get_tantheta(b); cq[3] = q.get_phi(b); }, &wq);
+              ++n_cmp;
+              if (tp != tq)
+                run.viol("derived_as_fresh", "coordinates_refused_by_one", "bin " + small::bin_str(b) + ": " + (tp ? "derived" : "fresh") + " object refuses coordinates: " + (tp ? wp : wq).substr(0, 160));
+              else if (tp) ++n_refused;
+              else
+                {
+                  static const char* nm[4] = { "s", "m", "tantheta", "phi" };
+                  const double cond = g.reff * g.reff / std::max(1e-9, g.reff * g.reff - cq[0] * cq[0]);
+                  const double tol[4] = { tol_len, tol_len, 500 * EPSF * (1 + std::fabs(cq[2])) * std::max(1.0, cond), tol_phi };
+                  for (int i = 0; i < 4; ++i)
+                    if (!(std::fabs(cp[i] - cq[i]) <= tol[i]))
+                      run.viol("derived_as_fresh", nm[i], "bin " + small::bin_str(b) + ": derived object reports " + nm[i] + "=" + fstr(cp[i]) + ", the freshly constructed object that compares equal " + fstr(cq[i]));
+                }
+              if (g.na || g.ge)
+                {
+                  const bool lp = small::throws([&] { if (g.na) g.na->get_all_det_pos_pairs_for_bin(dp, b, true); else g.ge->get_all_det_pos_pairs_for_bin(dp, b); }, &wp);
+                  const bool lq = small::throws([&] { if (qna) qna->get_all_det_pos_pairs_for_bin(dq, b, true); else qge->get_all_det_pos_pairs_for_bin(dq, b); }, &wq);
+                  ++n_lists;
+                  if (lp != lq)
+                    run.viol("derived_as_fresh", "det_pos_pairs_refused_by_one", "bin " + small::bin_str(b) + ": " + (lp ? "derived" : "fresh") + " object refuses the detector pairs: " + (lp ? wp : wq).substr(0, 160));
+                  else if (!lp)
+                    {
+                      kp.clear(); kq.clear();
+                      for (auto& e : dp) kp.push_back(dp_key(e));
+                      for (auto& e : dq) kq.push_back(dp_key(e));
+                      std::sort(kp.begin(), kp.end()); std::sort(kq.begin(), kq.end());
+                      if (kp != kq)
+                        run.viol("derived_as_fresh", "det_pos_pairs_for_bin", "bin " + small::bin_str(b) + ": derived object lists " + std::to_string(dp.size()) + " detector pairs" + (dp.empty() ? std::string() : " (first " + rpdi::dp_str(dp[0]) + ")")
+                                                                                  + ", the freshly constructed object that compares equal " + std::to_string(dq.size()) + (dq.empty() ? std::string() : " (first " + rpdi::dp_str(dq[0]) + ")"));
+                    }
+                }
+            }
+    }
+  // ---------------- TOF
+  if (p.is_tof_data())
+    for (int k = kmin; k <= kmax; ++k)
+      {
+        const Bin b(0, 0, 0, 0, k, 1.F);
+        const double a[3] = { p.get_k(b), p.tof_bin_boundaries_mm[k].low_lim, p.tof_bin_boundaries_mm[k].high_lim };
+        const double c[3] = { q.get_k(b), q.tof_bin_boundaries_mm[k].low_lim, q.tof_bin_boundaries_mm[k].high_lim };
+        const double tol = 500 * EPSF * (std::fabs(c[0]) + std::fabs(c[1]) + std::fabs(c[2]) + 1);
+        ++n_cmp;
+        for (int i = 0; i < 3; ++i)
+          if (!(std::fabs(a[i] - c[i]) <= tol))
+            run.viol("derived_as_fresh", "tof", "TOF bin " + std::to_string(k) + ": derived object has centre/low/high " + fstr(a[0]) + "/" + fstr(a[1]) + "/" + fstr(a[2]) + " mm, the freshly constructed object " + fstr(c[0]) + "/" + fstr(c[1]) + "/" + fstr(c[2]));
+      }
+  // ---------------- every detector pair -> bin
+  if (g.na || g.ge)
+    {
+      const std::vector<int> rings = restricted ? uniq_in({ 0, 1, g.Rn / 2, g.Rn - 1 }, 0, g.Rn - 1) : range(0, g.Rn - 1);
+      // DetectionPositionPair::timing_pos() is in the scanner's (un-mashed) TOF bins
+      const int Tsc = p.is_tof_data() ? g.sc->get_max_num_timing_poss() : 1;
+      const std::vector<int> tks = !p.is_tof_data() ? std::vector<int>{ 0 } : (restricted ? uniq_in({ -(Tsc / 2), 0, Tsc / 2 }, -(Tsc / 2), Tsc / 2) : range(-(Tsc / 2), Tsc / 2));
+      for (int r1 : rings)
+        for (int r2 : rings)
+          for (int d1 = 0; d1 < g.D; ++d1)
+            for (int d2 = 0; d2 < g.D; ++d2)
+              {
+                if (d1 == d2) continue; // assert()-only precondition
+                if (run.too_many()) return;
+                for (int tk : tks)
+                  {
+                    if (restricted && tk != 0 && (r1 != rings.front() || r2 != rings.back())) continue; // large scanners: TOF bins other than 0 for one ring pair
+                    const DPP e = rpdi::mk_dp(d1, r1, d2, r2, tk);
+                    Bin bp, bq;
+                    const Succeeded sp = g.na ? g.na->get_bin_for_det_pos_pair(bp, e) : g.ge->get_bin_for_det_pos_pair(bp, e);
+                    const Succeeded sq = qna ? qna->get_bin_for_det_pos_pair(bq, e) : qge->get_bin_for_det_pos_pair(bq, e);
+                    ++n_pairs;
+                    if (sp == Succeeded::yes) ++n_pairs_binned;
+                    if (sp != sq || (sp == Succeeded::yes && !rpdi::same_bin(bp, bq)))
+                      run.viol("derived_as_fresh", "bin_for_det_pos_pair", "detector pair " + rpdi::dp_str(e) + ": derived object gives " + (sp == Succeeded::yes ? small::bin_str(bp) : std::string("no bin"))
+                                                                               + ", the freshly constructed object that compares equal gives " + (sq == Succeeded::yes ? small::bin_str(bq) : std::string("no bin"))
+                                                                               + " (" + std::to_string(g.V) + " views, base object had view mashing " + std::to_string(run.d.bvm) + ")");
+                  }
+              }
+    }
+  ctx.count("evaluations", n_cmp + n_lists + n_pairs);
+  ctx.count("derived_bins_compared_with_fresh", n_cmp);
+  ctx.count("derived_bins_coordinates_refused_by_both", n_refused);
+  ctx.count("derived_det_pair_lists_compared_with_fresh", n_lists);
+  ctx.count("derived_det_pairs_binned_by_both", n_pairs);
+  ctx.count("derived_det_pairs_with_a_bin", n_pairs_binned);
+}
+
 // ------------------------------------------------------------------------------------------------ what=coords
 static void run_coords(vmc::Ctx& ctx, const std::string& cs)
 {
@@ -769,7 +906,8 @@ static void run_coords(vmc::Ctx& ctx, const std::string& cs)
   ctx.current("what=coords;geom=" + c.geom + ";arc=" + std::to_string(c.arc), cs);
   ctx.count("configurations");
   Geo g;
-  run.keybase = "family=" + std::string(c.geom == "blk" || c.geom == "gen" ? "generic" : (c.arc ? "cylarc" : "cylnoarc"));
+  const std::string dkey = run.d.mode ? std::string(";derived=") + run.d.name() : std::string();
+  run.keybase = "family=" + std::string(c.geom == "blk" || c.geom == "gen" ? "generic" : (c.arc ? "cylarc" : "cylnoarc")) + dkey;
   if (!build_geo(run, g)) return;
   bool compressed = false, single = false;
   for (int s = g.pdi->get_min_segment_num(); s <= g.pdi->get_max_segment_num(); ++s)
@@ -780,7 +918,7 @@ static void run_coords(vmc::Ctx& ctx, const std::string& cs)
   const std::string family = g.ge ? "generic" : (g.ac ? "cylarc" : "cylnoarc");
   const std::string comp = c.ge ? "ge" : (!compressed ? "none" : (single ? "mixed" : (c.span % 2 ? "oddspan" : "evenspan")));
   const int tm = g.pdi->get_tof_mash_factor();
-  run.keybase = "family=" + family;
+  run.keybase = "family=" + family + dkey;
   (void)comp; (void)tm;
   if (g.vm > 1) ctx.count("configs_with_view_mashing");
   if (compressed) ctx.count("configs_with_axial_compression");
@@ -823,6 +961,7 @@ static void run_coords(vmc::Ctx& ctx, const std::string& cs)
           }
         check_tof(run, g);
         check_bins(run, g);
+        if (run.d.mode) check_derived(run, g);
       }, &what))
     {
       ctx.count("rejected_configs");
@@ -1051,6 +1190,76 @@ static void add_predefined(std::vector<std::string>& out, int type, const std::v
   if (cylindrical) { Cfg s; s.geom = "pre"; s.type = type; s.D = D; s.R = R; add_arccorr(out, s, D, false); }
 }
 
+// derived twins of the coords configurations enumerated so far (appended, so that the unit numbers of the existing cases do not change)
+static bool sc_is_not_cylindrical(int type)
+{
+  Scanner sc(static_cast<Scanner::Type>(type));
+  return sc.get_scanner_geometry() != "Cylindrical";
+}
+static void add_derived(std::vector<std::string>& out, bool thorough)
+{
+  const size_t n0 = out.size();
+  std::map<int, std::array<int, 3>> pre; // type -> D, T, default number of arc-corrected bins
+  for (size_t i = 0; i < n0; ++i)
+    {
+      const std::string s = out[i];
+      if (s.compare(0, 12, "what=coords;") != 0) continue;
+      Cfg c = Cfg::parse(s);
+      const bool det = c.geom == "blk" || c.geom == "gen";
+      const bool predefined = c.geom == "pre";
+      int D = c.D, T = c.T, nt_default = c.arc ? c.D / 2 : (c.mb > 0 ? c.mb : c.D - 1);
+      if (predefined)
+        {
+          if (!pre.count(c.type))
+            {
+              Scanner sc(static_cast<Scanner::Type>(c.type));
+              pre[c.type] = { sc.get_num_detectors_per_ring(), sc.is_tof_ready() ? sc.get_max_num_timing_poss() : 0, sc.get_default_num_arccorrected_bins() };
+            }
+          D = pre[c.type][0]; T = pre[c.type][1];
+          nt_default = c.arc ? pre[c.type][2] : 0;
+          if (sc_is_not_cylindrical(c.type)) continue; // blocks scanners of the database: no view mashing, the generated ones cover trimming
+        }
+      const bool dev_vm = c.vm > 1, dev_nt = c.nt != 0 && c.nt != nt_default, dev_tm = c.tm > 1, dev_sr = c.sr != 0;
+      const int devs = (int)dev_nt + (int)dev_tm + (int)dev_sr;
+      // the star around the un-trimmed sampling, for every view mashing factor (thorough: generated scanners up to two deviations)
+      if (devs > ((thorough && !predefined) ? 2 : 1)) continue;
+      // quick: three rings only with the un-trimmed sampling (every view mashing, every axial compression)
+      if (!thorough && !predefined && c.R >= 3 && devs > 0) continue;
+      const bool any = dev_vm || dev_nt || dev_tm || dev_sr;
+      const int tm1 = c.tm > 0 ? 1 : 0;
+      auto emit = [&](int mode, int bvm, int bnt, int btm, int warm) {
+        Der d; d.mode = mode; d.bvm = bvm; d.bnt = bnt; d.btm = btm; d.warm = warm;
+        out.push_back("what=coords;" + c.str() + d.str());
+      };
+      if (predefined)
+        {
+          // database scanners: mashed views only, through SSRB and through the setters
+          if (!dev_vm) continue;
+          emit(2, 1, 0, tm1, 1);
+          if (c.span > 1 || thorough) emit(1, 1, 0, tm1, 1);
+          continue;
+        }
+      // fine base (no view mashing, all tangential positions, no TOF mashing): clone + setters (without deviation: the clone itself)
+      emit(1, 1, 0, tm1, 1);
+      if (thorough && any) emit(1, 1, 0, tm1, 0);
+      // ... SSRB (TOF bins are combined in odd numbers only), setters on the used object itself
+      const bool ssrb_ok = !det && (c.tm == 0 || c.tm % 2 == 1) && (c.nt == 0 || c.nt <= nt_default); // SSRB trims tangential positions, it cannot add any
+      if (ssrb_ok && any) emit(2, 1, 0, tm1, 1);
+      if (any && (thorough || D <= 12)) emit(3, 1, 0, tm1, 1);
+      // coarse base (a single view, a single tangential position, a single TOF bin): the setters REFINE the sampling
+      {
+        const int cvm = det ? 1 : D / 2, ctm = c.tm > 0 ? T : 0;
+        if (c.vm != cvm || c.nt != 1 || c.tm != ctm) emit(1, cvm, 1, ctm, 1);
+      }
+      // every other view mashing of the base
+      if (!det && devs == 0 && (thorough || D <= 16))
+        for (int bvm : rpdi::divisors(D / 2))
+          if (bvm != 1 && bvm != D / 2 && bvm != c.vm) emit(1, bvm, 0, tm1, 1);
+      // SSRB combining the segments of span-1 data into the segments of an odd span (all of them complete)
+      if (ssrb_ok && !c.ge && c.span >= 3 && c.span % 2 == 1 && c.md % c.span == (c.span - 1) / 2) emit(4, 1, 0, tm1, 1);
+    }
+}
+
 static std::vector<std::string> enumerate(bool thorough)
 {
   std::vector<std::string> out;
@@ -1104,6 +1313,7 @@ static std::vector<std::string> enumerate(bool thorough)
       for (int D : { 24, 32, 64 }) { Cfg s; s.geom = "cyl"; s.D = D; s.R = 1; s.mb = D - 1; add_arccorr(out, s, D, false); }
       // four predefined scanners: intrinsic tilt (ECAT 953), TOF + tilt (GE Discovery 690), small (RATPET), blocks (SAFIR)
       for (int type : { (int)Scanner::E953, (int)Scanner::Discovery690, (int)Scanner::RATPET, (int)Scanner::SAFIRDualRingPrototype }) add_predefined(out, type, { 1, 3 });
+      add_derived(out, false);
       return out;
     }
   // block 2 (axial factor): small D, R up to 8, every span / max ring difference
@@ -1119,6 +1329,7 @@ static std::vector<std::string> enumerate(bool thorough)
   for (int D : { 96, 128, 256, 504 }) { Cfg s; s.geom = "cyl"; s.D = D; s.R = 1; s.mb = D - 1; add_arccorr(out, s, D, false); }
   // block 4: every predefined scanner, native D and R
   for (int type = 0; type < (int)Scanner::User_defined_scanner; ++type) add_predefined(out, type, { 1, 2, 3, 11 });
+  add_derived(out, true);
   return out;
 }
 
@@ -1129,7 +1340,11 @@ int main(int argc, char** argv)
   ctx.rule = "unit = one (scanner, sampling) configuration [what=coords: ALL bins through get_s/get_m/get_tantheta/get_phi/get_LOR/get_bin against the line "
              "through the detector positions of get_all_det_pos_pairs_for_bin] or one arc-correction set-up [what=arccorr: ALL unit rows + constant rows + ramp]; "
              "a coords configuration is non-trivial when at least one bin was compared, an arccorr configuration when at least one input bin lies inside the output "
-             "range and one output bin inside the input range";
+             "range and one output bin inside the input range; "
+             "coords configurations are enumerated twice: freshly constructed, and DERIVED (der=1..4: warm-up queries on a base object of finer or coarser sampling, then clone()/in place "
+             "set_num_views + set_azimuthal_angle_offset, set_num_tangential_poss, reduce_segment_range, set_tof_mash_factor, or SSRB combining views / trimming / combining segments), "
+             "with all clauses on the derived object plus derived_as_fresh (equal to the freshly constructed object => same coordinates, detector pairs per bin, bin per detector pair); "
+             "a derived configuration is a distinct case (its case string carries the derivation)";
   ctx.assume("tolerances: lengths 500*eps_float*(ring radius + axial extent), angles 500*eps_float*pi, tan(theta) 500*eps_float*(1+|tan(theta)|), arc correction 2e-4 relative; a defect is O(bin size)");
   ctx.assume("cylindrical scanners: crystal d of ring r is at psi = 2 pi d/D + intrinsic tilt on the effective ring radius, z = (r-(R-1)/2)*ring spacing (cross-checked against find_cartesian_coordinates_of_detection, whose z is documented to be 0 in the first ring); blocks/generic: Scanner::get_coordinate_for_det_pos");
   ctx.assume("lines are compared as unoriented lines: (s,phi,tantheta) ~ (-s,phi+pi,-tantheta); generic geometries report phi in [0,pi), their coordinates are brought to the orientation near the nominal view angle before the monotonicity / antisymmetry checks");
@@ -1140,6 +1355,9 @@ int main(int argc, char** argv)
   ctx.assume("blocks/generic with axial compression: STIR refuses coordinates and LORs with error(); recorded, not a failure");
   ctx.assume("arc correction: data are step functions; non-arc-corrected bin t covers [R sin((t-1/2) pi/D), R sin((t+1/2) pi/D)] (bins tile the tangential axis); integral = sum value*width; unit rows whose bin is partly outside the output range and output bins partly outside the input range only get one-sided checks");
   ctx.assume("the never-initialised diagonal entries of STIR's det1det2_to_uncompressed_view_tangpos table are set to (view 0, tangential position 0) by the harness so that reads of them (get_bin with both LOR ends rounding to one detector) have a deterministic outcome");
+  ctx.assume("derived objects: set_num_views() is documented to leave the azimuthal offset to the caller; the derivation sets it as SSRB does (old offset + old sampling * (factor-1)/2). "
+             "derived_as_fresh is only demanded when operator== holds both ways (counted: derived_equal_to_fresh / derived_not_equal_to_fresh); coordinates are compared with the tolerances above, "
+             "detector-pair lists as sets, bins for detector pairs exactly (detector pairs d1 != d2; scanners with > 5e5 bins: rings {0,1,middle,last}, TOF bins {min,0,max} for one ring pair)");
   ctx.assume("axial trimming, set_ring_radii_for_all_views, non-zero bed positions and HiDAC-like non-ring data are not enumerated");
   g_tmp = ctx.tmpdir + "/C12_" + std::to_string((long)getpid());
   std::filesystem::create_directories(g_tmp);
